@@ -911,6 +911,9 @@ impl MDL {
 
         self.model_data.shapes[shape_index].shape_mesh_count[lod_index] += 1;
 
+        // the replacing vertices live in the mesh's vertex buffer
+        self.model_data.meshes[part.mesh_index as usize].vertex_count = part.vertices.len() as u16;
+
         self.update_headers();
     }
 
